@@ -38,7 +38,7 @@ MANIFEST = {
             'b = 3,5,6,7 over all bit tapes up to 12 bits must be uniform. Joint view of the n openings of ONE list/array truncation: '
             'theorems C18_low_masks_range/injective/surjective (theories/MaskBits.v, all f and n): the as-coded map from the f*n shared '
             'random bits to the n low masks (disjoint slices r_bits[f*j:f*(j+1)]) is a bijection onto [0,2^f)^n, so the masks are uniform '
-            'and mutually independent; tie: the linear response of the real openings of trunc/np_trunc (int and fixed-point, random f, n) to '
+            'and mutually independent; tie: the linear response of the real openings of trunc/np_trunc (int and fixed-point, random f, n) and np_to_bits (secint arrays, l bits per element, mask subtracted) to '
             'every unit bit vector and to random bit vectors must equal low_masks evaluated by vm_compute.',
     'note': 'Per-opening bounds are proved; composition across a whole adaptive program is the union bound over openings, stated not '
             'mechanised. PRF (SHAKE-128) outputs and `secrets` draws being uniform and independent are oracle assumptions; that a '
@@ -51,7 +51,7 @@ MANIFEST = {
             'row ignores (conservative: it fails with and without that factor). F-C18-1 (np pow precedence) is fixed in /repo; open findings: _mod and sincos masks (F-C18-2/3) and six functions that '
             'open an un-rerandomised product with threshold 2t for medium/large fields (F-C18-5..10). to_bits on binary fields: rows '
             'assume the precondition a < 2^l (nothing above bit l is secret). The product-opening theorems are toy-size exhaustive '
-            'counts (p=11, m=3, t=1), not a general proof; the per-site rerandomisation obligation is a syntactic data-flow rule. Shares received by the coalition are checked exactly only for the dealing function on small prime fields (see C13/C15 for the general statements). NumPy sites are run only when .venv-np exists. The bit-layout stream runs single-party (shares are values) with random_bits/_randoms replaced by chosen values; only trunc/np_trunc are covered by it (np_sgn/np_to_bits/np_is_zero bit layouts are not).',
+            'counts (p=11, m=3, t=1), not a general proof; the per-site rerandomisation obligation is a syntactic data-flow rule. Shares received by the coalition are checked exactly only for the dealing function on small prime fields (see C13/C15 for the general statements). NumPy sites are run only when .venv-np exists. The bit-layout stream runs single-party (shares are values) with random_bits/_randoms replaced by chosen values; only trunc/np_trunc/np_to_bits (secint) are covered by it (np_sgn/np_is_zero bit layouts are not).',
     'technique': 'Coq counting proof of statistical distance + bijection proof for the bit layout of list truncation masks + source-regenerated mask table with per-row compiled obligations + simulator correspondence of mask bounds and bit layout (vm_compute)',
 }
 
@@ -1006,7 +1006,7 @@ def worker_maskbits(cfg):
 
     for case in cfg['cases']:
         kind, l, f, n = case['kind'], case['l'], case['f'], case['n']
-        st = mpc.SecInt(l) if kind in ('int', 'np_int') else mpc.SecFxp(l, f)
+        st = mpc.SecInt(l) if kind in ('int', 'np_int', 'np_to_bits') else mpc.SecFxp(l, f)
         isnp = kind.startswith('np')
         if isnp:
             np = mpc.np if hasattr(mpc, 'np') else None
@@ -1046,7 +1046,7 @@ def worker_maskbits(cfg):
             fut = o_out(self, x, receivers, threshold, raw)
             import sys as _s
             who = _s._getframe(1).f_code.co_name
-            if who in ('trunc', 'np_trunc'):
+            if who in ('trunc', 'np_trunc', 'np_to_bits'):
                 async def w():
                     v = await fut
                     vv = v.value if hasattr(v, 'value') and not isinstance(v, list) else v
@@ -1059,7 +1059,10 @@ def worker_maskbits(cfg):
             state['bits'], state['opened'] = bits, None
             if isnp:
                 a = st.array(np.array(xs))
-                r = mpc.np_trunc(a, f=f) if kind == 'np_int' else mpc.np_trunc(a)
+                if kind == 'np_to_bits':
+                    r = mpc.np_to_bits(a, l=f)      # opened: a + 2^L + (r_divl << l) - r_modl, r_modl from l bits per element
+                else:
+                    r = mpc.np_trunc(a, f=f) if kind == 'np_int' else mpc.np_trunc(a)
             else:
                 a = [st(x) for x in xs]
                 r = mpc.trunc(a, f=f) if kind == 'int' else mpc.trunc(a)
@@ -1280,6 +1283,11 @@ def run(ctx):
                     xs = [x + 0.5 for x in xs]
                 mb_cases.append(dict(kind=kind, l=32, f=f_, n=n_, xs=xs,
                                      extra=[[ctx.rng.randrange(2) for _ in range(f_ * n_)] for _ in range(3)]))
+        if have_np:
+            for _ in range(ctx.n(2, 4)):
+                f_, n_ = ctx.rng.choice([3, 5, 8]), ctx.rng.choice([2, 3])
+                mb_cases.append(dict(kind='np_to_bits', l=32, f=f_, n=n_, sign=-1, xs=[ctx.rng.randrange(-2000, 2000) for _ in range(n_)],
+                                     extra=[[ctx.rng.randrange(2) for _ in range(f_ * n_)] for _ in range(3)]))
         fut_mb = ex.submit(spawn, dict(mode='maskbits', cases=mb_cases), python)
         outs = list(ex.map(lambda c: spawn(c, python), configs))
         mbout = fut_mb.result()
@@ -1308,6 +1316,7 @@ def run(ctx):
             cs = c['case']
             nb = cs['f'] * cs['n']
             obs = c['resp'][vi] if vi < nb else c['extra'][vi - nb]
+            obs = [cs.get('sign', 1) * int(x) for x in obs]       # np_to_bits subtracts its low mask
             ctx.case({'maskbits': {k: cs[k] for k in ('kind', 'l', 'f', 'n', 'xs')}, 'bits': v}, nontrivial=True,
                      kind='mask-bit layout %s' % cs['kind'])
             if isinstance(mv, tuple) and mv and mv[0] == 'ERROR':
@@ -1316,7 +1325,7 @@ def run(ctx):
             if [int(x) for x in mv] != [int(x) for x in obs]:
                 nbad += 1
                 if nbad <= 3:
-                    fn = 'np_trunc' if cs['kind'].startswith('np') else 'trunc'
+                    fn = 'np_to_bits' if cs['kind'] == 'np_to_bits' else 'np_trunc' if cs['kind'].startswith('np') else 'trunc'
                     ctx.violation('mask-bits-layout site=%s' % fn,
                                   {'what': 'the low masks of the openings of one %s call are not the disjoint-slice function of the shared random bits '
                                            '(masks of different elements share bits: joint view depends on the secret low bits)' % fn,
